@@ -257,7 +257,13 @@ def case_strategy(tier):
 
     det = MG.manager_cases(tier, tasks=("detection",), max_frames=4, frames_fixed=None).filter(lambda d: len(d["frames"]) >= 2)
     # tracking: consistent multi-frame tracks (persistent GT instances with fixed category, estimate ids with events)
-    return st.one_of(det, c05.tracking_histories(tier))
+    def names(t):
+        d, restart = t
+        if restart:
+            d["names_restart"] = True  # frame names repeat (as with several dataset paths): a name does not identify a frame
+        return d
+
+    return st.tuples(st.one_of(det, c05.tracking_histories(tier)), st.booleans()).map(names)
 
 
 def factory(ctx, tier):
